@@ -94,3 +94,11 @@ Definition allowed_id_readers : list (string * string) :=
 
 Definition id_reads_allowed : bool :=
   forallb (fun r => existsb (pair_eqb r) allowed_id_readers) id_reads.
+
+(* the caller's data — the edge list handed to Populate, the size map handed to WithNodeSize — is never written:
+   element writes through parameters (or through elements ranged out of them) occur only inside internal
+   packages, on the library's own working slices and maps *)
+Definition internal_file (f : string) : bool := String.prefix "internal/" f.
+
+Definition caller_data_not_written : bool :=
+  forallb (fun s => negb (String.eqb (kind_of s) "paramwrite") || internal_file (file_of s)) sites.
